@@ -173,12 +173,16 @@ func batch(args []string) {
 				res.Samples = append(res.Samples, b)
 			}
 		}
-		v := rep.V
+		var vs []*detsim.Violation
+		if rep.V != nil {
+			vs = append(vs, rep.V)
+		}
 		if txt := rl.Grown(); txt != "" {
 			// the race detector reported during this run
-			v = raceViolation(txt)
+			vs = append(vs, raceViolation(txt))
 		}
-		if v != nil {
+		stop := false
+		for _, v := range vs {
 			sig := v.Signature(*prop)
 			if seenSig[sig] && len(res.Violations) >= 8 {
 				continue
@@ -194,8 +198,11 @@ func batch(args []string) {
 			}
 			res.Violations = append(res.Violations, path)
 			if len(res.Violations) >= 24 {
-				break
+				stop = true
 			}
+		}
+		if stop {
+			break
 		}
 	}
 	res.Interleavings, res.InterleavingsOverflow = inter.List(), inter.Overflow
@@ -238,9 +245,19 @@ func replay(args []string) {
 	atomic.StoreInt32(&simRunning, 1)
 	rep := e.Run(plan, ch)
 	atomic.StoreInt32(&simRunning, 0)
+	// a run can show a semantic violation and race reports; the one the file
+	// is about takes precedence
 	v := rep.V
 	if txt := rl.Grown(); txt != "" {
-		v = raceViolation(txt)
+		rv := raceViolation(txt)
+		if v == nil || (rf.Violation != nil && rf.Violation.Class == "race") {
+			if v != nil {
+				rv.Detail = "(also: " + v.Signature(rf.Property) + ")\n" + rv.Detail
+			}
+			v = rv
+		} else {
+			v.Detail += "\n(the race detector also reported: " + strings.Join(rv.Subs, ", ") + ")"
+		}
 	}
 	if ch.Err != nil {
 		fmt.Println("REPLAY-DIVERGED", ch.Err)
